@@ -20,7 +20,6 @@ from .ber import Null
 from .ber import ObjectIdentifier
 from .ber import Enumerated
 from .ber import Sequence
-from .ber import Set
 from .ber import Choice
 from .ber import Any
 from .ber import AnyDefinedBy
@@ -189,6 +188,47 @@ class SequenceOf(ArrayType):
                                          'SEQUENCE OF',
                                          Tag.SEQUENCE,
                                          element_type)
+
+
+def get_encoded_tag_no_encoding(encoded):
+    """Sort key of an encoded SET component: its tag (class and number),
+    as ber.get_tag_no_encoding() for a compiled member.
+
+    """
+
+    length = 1
+
+    if encoded[0] & 0x1f == 0x1f:
+        while encoded[length] & 0x80:
+            length += 1
+
+        length += 1
+
+    return (encoded[0] & ~Encoding.CONSTRUCTED, length, encoded[1:length])
+
+
+class Set(ber.Set):
+
+    def encode_content(self, data, values=None):
+        encoded_members = []
+
+        for member in self.root_members:
+            encoded_member = bytearray()
+            self.encode_member(member, data, encoded_member)
+
+            if encoded_member:
+                encoded_members.append(encoded_member)
+
+        # X.690 10.3: components in ascending tag order, where the
+        # tag of an untagged CHOICE component is the tag of the
+        # alternative being encoded.
+        encoded_members = bytearray().join(
+            sorted(encoded_members, key=get_encoded_tag_no_encoding))
+
+        if self.additions:
+            self.encode_additions(data, encoded_members)
+
+        return encoded_members
 
 
 class SetOf(ArrayType):
